@@ -6,14 +6,19 @@ def run(ctx):
     rule = ("Each case = one operation of a history executed against the real server in a fork()ed child (fresh process-global session cache per history; "
             "TLS servers enable TLS 1.1, 1.2 and 1.3 at once, the client fixes the version; histories are a pure function of (seed, index): a fixed set of scripted class histories per version x credential kind plus seeded random ones over 4-40 clients and two server key sets). "
             "Operations: full handshake, resume by id / RFC 5077 ticket / TLS 1.3 PSK, replay of any issued credential with the true, a random or an all-zero secret, ClientHello edited on the wire "
-            "(session id truncated/edited/replaced, ticket edited/truncated/extended/re-named, PSK identity/age/binder edited, suite removed, EMS flipped, cross-version ticket), other server key set, "
+            "(session id truncated/edited/replaced, ticket edited/truncated/extended/re-named, PSK identity/age/binder edited, suite removed, cross-version ticket), "
+            "extended_master_secret removed from, or inserted first / last / directly after session_ticket into, the hello that presents an id or ticket of a session recorded the other way, and the same mismatch produced by the genuine client's own configuration "
+            "(its hello carries session_ticket before extended_master_secret), TLS 1.3 tickets presented by a client on its own clock (clock_gettime offset while the client endpoint is inside the library: stood still, half speed, "
+            "claims lifetime-1 s, claims > 24.8 days, ran backwards; the obfuscated_ticket_age on the wire is read back and counted against the ticket's age on the server's clock), other server key set, "
             "other protocol version, clock steps around both lifetimes and far beyond, fatal alert sent/received on a live or resumed connection, close, abandoned handshake, cache fill beyond 32, "
             "ticket key load/delete/rotate. The server's decision is read when its ServerHello flight appears (SSL_FLAGS_RESUMED / ServerHello+ChangeCipherSpec / pre_shared_key) and checked against a "
-            "sequential model credential -> {secret, version, suite, EMS, issue time, key, invalidated}. distinct_nontrivial = distinct (operation, forgery label, credential kind presented, "
+            "sequential model credential -> {secret, version, suite, EMS, issue time, key, invalidated}; expiry is judged on the server's clock only, the age a client claims never justifies or (for a fresh ticket) forbids a resumption. distinct_nontrivial = distinct (operation, forgery label, credential kind presented, "
             "version, outcome) tuples plus distinct history shapes (hash of the operation-kind sequence).")
     return vflib.std_run(ctx, st, "exploration", rule,
         ["the library's session clock is CLOCK_MONOTONIC (USE_HIGHRES_TIME); it is virtualised together with time()/gettimeofday()",
          "the session cache is process-global: ids issued through either server key set of the same process are 'this server's'; a foreign server is modelled by a second ticket-key set and by fabricated ids",
          "the converse (a valid credential must resume) is asserted only in the quiet positive-control histories; DTLS ticket resumption is not part of the control (MatrixSSL's DTLS client does not complete it)",
-         "stateless tickets / TLS 1.3 PSKs cannot be invalidated server-side: invalidation by fatal alert is required for cached sessions only"],
+         "stateless tickets / TLS 1.3 PSKs cannot be invalidated server-side: invalidation by fatal alert is required for cached sessions only",
+         "only the TLS 1.3 client consults the clock (ticket age); certificate validity is checked against time(), which stays common to both endpoints",
+         "self-checks: the claimed-ticket-age and ems-differs/ticket scripted histories are inconclusive unless an expired ticket was actually presented with a claimed age inside the lifetime / a non-EMS ticket was actually followed by extended_master_secret on the wire"],
         min_nontrivial=150)
